@@ -123,26 +123,47 @@ fn mixed_batch(ctx: &Ctx, rep: &mut Report, id: usize, b: usize, leg: &str) {
             })
             .collect()
     };
-    let mixture: Vec<(usize, usize)> = mixture.into_iter().filter(|(m, _)| n * m <= 64).collect();
+    let mut mixture: Vec<(usize, usize)> = mixture.into_iter().filter(|(m, _)| n * m <= 64).collect();
     if mixture.len() < 2 {
         return;
     }
-    let mut cases = vec![];
-    let mut proofs = vec![];
+    // now and then a mixture longer than the verifier's internal chunk: the largest member first, last or at 256
+    let long = b % 8 == 7;
+    if long {
+        let big = *mixture.iter().max_by_key(|(m, _)| *m).unwrap();
+        let small: Vec<(usize, usize)> = mixture.iter().copied().filter(|(m, _)| *m < big.0).collect();
+        if !small.is_empty() {
+            let total = 257 + (b / 8) % 44;
+            let at = [0usize, total - 1, 256, 100][(b / 8) % 4];
+            mixture = (0..total).map(|i| if i == at { big } else { small[i % small.len()] }).collect();
+            rep.count("mixed_capacity_batches_beyond_one_chunk", 1);
+        }
+    }
+    let mut cases: Vec<Case> = vec![];
+    let mut proofs: Vec<Proof> = vec![];
+    let mut made: HashMap<(usize, usize), usize> = HashMap::new();
     for (i, &(m, cap)) in mixture.iter().enumerate() {
+        if mixture.len() > 16 {
+            if let Some(j) = made.get(&(m, cap)) {
+                cases.push(cases[*j].clone());
+                proofs.push(proofs[*j].clone());
+                continue;
+            }
+        }
         // prove under one capacity, verify under the mixture's capacity
         let cp = if (i + b) % 2 == 0 { cap } else { m.max(cap / 2) };
         let case = Case::random(Cfg::new(n, m, cp, ext), VALUE_CLASSES[(i + b) % 6], PROMISE_CLASSES[(i + b) % 5], true, &mut rng);
         let mut prng = FaultRng::new(RngKind::Healthy(rng.next_u64()));
         let Ok(p) = case.prove(&mut prng) else { return };
+        made.insert((m, cap), cases.len());
         cases.push(case);
         proofs.push(p);
     }
     let ts: Vec<Transcript> = cases.iter().map(|c| c.transcript()).collect();
     let sts: Vec<Stmt> = cases.iter().zip(mixture.iter()).map(|(c, (_, cap))| c.statement_with(&params_uncached(n, *cap, ext), &c.promises, c.seed)).collect();
-    let replay = json!({"tier": if ctx.thorough() {"thorough"} else {"quick"}, "seed": ctx.seed, "leg": leg, "case": id, "descr": {"group": GROUP, "bits": n, "ext": ext, "mixture_aggregation_capacity": mixture}});
+    let replay = json!({"tier": if ctx.thorough() {"thorough"} else {"quick"}, "seed": ctx.seed, "leg": leg, "case": id, "descr": {"group": GROUP, "bits": n, "ext": ext, "mixture_aggregation_capacity": (if mixture.len() > 16 { mixture[..8].to_vec() } else { mixture.clone() }), "members": mixture.len()}});
     // every rotation of the batch: which member comes first matters for table and padding selection
-    for rot in 0..mixture.len() {
+    for rot in 0..(if mixture.len() > 16 { 1 } else { mixture.len() }) {
         let idx: Vec<usize> = (0..mixture.len()).map(|i| (i + rot) % mixture.len()).collect();
         let ts2: Vec<Transcript> = idx.iter().map(|i| ts[*i].clone()).collect();
         let sts2: Vec<Stmt> = idx.iter().map(|i| sts[*i].clone()).collect();
@@ -154,8 +175,8 @@ fn mixed_batch(ctx: &Ctx, rep: &mut Report, id: usize, b: usize, leg: &str) {
             let r = no_panic(|| verify_many(&ts2, &sts2, &pr2, action));
             let probe = <P as Gx>::probe_take();
             match r {
-                Err(p) => rep.violation("C12 mixed-batch-panic", &format!("verify_batch panicked on a valid batch with (aggregation, capacity) = {:?}: {p}", idx.iter().map(|i| mixture[*i]).collect::<Vec<_>>()), replay.clone()),
-                Ok(Err(e)) => rep.violation("C12 mixed-batch-rejected", &format!("a valid batch with (aggregation, capacity) = {:?} was rejected ({}): {e}", idx.iter().map(|i| mixture[*i]).collect::<Vec<_>>(), action_name(action)), replay.clone()),
+                Err(p) => rep.violation("C12 mixed-batch-panic", &format!("verify_batch panicked on a valid batch of {} with (aggregation, capacity) = {:?}..: {p}", idx.len(), idx.iter().take(8).map(|i| mixture[*i]).collect::<Vec<_>>()), replay.clone()),
+                Ok(Err(e)) => rep.violation("C12 mixed-batch-rejected", &format!("a valid batch of {} with (aggregation, capacity) = {:?}.. was rejected ({}): {e}", idx.len(), idx.iter().take(8).map(|i| mixture[*i]).collect::<Vec<_>>(), action_name(action)), replay.clone()),
                 Ok(Ok(masks)) => {
                     let ok = masks.len() == idx.len() &&
                         idx.iter().zip(masks.iter()).all(|(i, g)| {
@@ -177,5 +198,5 @@ fn mixed_batch(ctx: &Ctx, rep: &mut Report, id: usize, b: usize, leg: &str) {
             }
         }
     }
-    rep.sample(&format!("{GROUP}-mixed"), json!({"bits": n, "ext": ext, "mixture_aggregation_capacity": mixture}));
+    rep.sample(&format!("{GROUP}-mixed"), json!({"bits": n, "ext": ext, "members": mixture.len(), "mixture_aggregation_capacity": (if mixture.len() > 16 { mixture[..8].to_vec() } else { mixture.clone() })}));
 }
